@@ -604,7 +604,13 @@ def install(it):
     M['reflect.PtrTo'] = m_PtrTo
     M['reflect.PointerTo'] = m_PtrTo
     def m_FuncOf(it_, a):
-        def lst(s): return [] if s.arr is None else [tid_of(x) for x in s.arr.a[s.off:s.off + s.len]]
+        def lst(s):
+            out = []
+            for x in ([] if s.arr is None else s.arr.a[s.off:s.off + s.len]):
+                if x is None:
+                    it.rt_panic('interface conversion: reflect.Type is nil, not *reflect.rtype')
+                out.append(tid_of(x))
+            return out
         return rtype(func_of(lst(a[0]), lst(a[1]), a[2]))
     M['reflect.FuncOf'] = m_FuncOf
 
